@@ -35,10 +35,15 @@
 #define DECL_INPUT(T)   T nondet_##T(void)
 #define INPUT(T, v)     T v = nondet_##T()
 #define ASSUME(e)       __CPROVER_assume(e)
-/* exact-size heap object holding the first n bytes of src (src is an array inside the input) */
+/* exact-size heap object of n bytes; its first min(n, 32, sizeof src) bytes are copied from src (an array inside
+ * the recorded input), the rest keep malloc's unconstrained contents.  Straight-line on purpose: no loop
+ * to unwind, and __CPROVER_array_replace was measured to zero-fill past the end of a shorter source. */
+#define VF1_(d, s, n, i) if ((size_t)(n) > (i) && sizeof(s) > (i)) (d)[i] = (s)[(i) < sizeof(s) ? (i) : 0];
+#define VF4_(d, s, n, i) VF1_(d, s, n, i) VF1_(d, s, n, (i) + 1) VF1_(d, s, n, (i) + 2) VF1_(d, s, n, (i) + 3)
+#define VF16_(d, s, n, i) VF4_(d, s, n, i) VF4_(d, s, n, (i) + 4) VF4_(d, s, n, (i) + 8) VF4_(d, s, n, (i) + 12)
 #define MKBUF(dst, src, n) \
 	uint8_t *dst = (uint8_t *)malloc(n); __CPROVER_assume(dst != NULL); \
-	__CPROVER_array_replace((uint8_t *)dst, src)
+	VF16_(dst, src, n, 0) VF16_(dst, src, n, 16)
 #define MKOUT(dst, n) \
 	uint8_t *dst = (uint8_t *)malloc(n); __CPROVER_assume(dst != NULL)
 /* must-fail reachability marker; the driver requires status FAILURE for each */
@@ -71,7 +76,7 @@ typedef signed __CPROVER_bitvector[320] sbv320;
 #define INPUT(T, v)     T v = REPLAY_INIT_##v
 #define ASSUME(e)       do { if (!(e)) { printf("REPLAY-ASSUMPTION-FALSE %s\n", #e); exit(3); } } while (0)
 #define MKBUF(dst, src, n) \
-	uint8_t *dst = (uint8_t *)malloc((n) ? (n) : 1); memcpy(dst, src, (n))
+	uint8_t *dst = (uint8_t *)calloc((n) ? (n) : 1, 1); memcpy(dst, src, (n) < sizeof(src) ? (n) : sizeof(src))
 #define MKOUT(dst, n) \
 	uint8_t *dst = (uint8_t *)malloc((n) ? (n) : 1)
 #define CANARY(tag)     do { } while (0)
